@@ -356,8 +356,11 @@ def main():
         "wall_s": round(time.time() - t0, 2),
         "violations": n_viol,
     }
-    os.makedirs(os.path.join(VERIF, "evidence"), exist_ok=True)
-    with open(os.path.join(VERIF, "evidence", f"{pid}.json"), "w") as f:
+    # evidence/ describes runs against /repo itself; a run against another copy (VERIF_REPO, mutant testing) must
+    # not overwrite it
+    evdir = "evidence" if os.path.realpath(REPO) == "/repo" else "evidence_alt"
+    os.makedirs(os.path.join(VERIF, evdir), exist_ok=True)
+    with open(os.path.join(VERIF, evdir, f"{pid}.json"), "w") as f:
         json.dump(evidence, f, indent=1, sort_keys=True)
         f.write("\n")
     for l in lines:
